@@ -54,6 +54,16 @@ def run(rep, tier, rng):
     # a sixth file whose .shp header announces a length that ends inside the second record (a header never brought up
     # to date), with a correct index: with the index, the index alone says where records are
     models.append(mk([1, 2, 3]))
+    # a seventh file of a type with heights and measures (MultipointZ, 20-30 points per record), read from sources that
+    # deliver a few bytes per read call
+    def mkz(lens):
+        recs = []
+        for i, k in enumerate(lens):
+            pts = [[0x3FF0000000000000 + (i << 48) + j, 0x4000000000000000 + j] for j in range(k)]
+            recs.append({"num": i + 1, "shape": {"code": 18, "box": [1, 2, 3, 4], "pts": pts, "zrange": [5, 6], "zs": [0x4010000000000000 + j for j in range(k)],
+                                                 "mrange": [7, 8], "ms": [0x4020000000000000 + j for j in range(k)]}})
+        return {"type": 18, "box": [0] * 8, "records": recs}
+    models.append(mkz([20, 30, 25]))
     for mi, m in enumerate(models):
         shp, shx = refesri.encode_shp(m), refesri.encode_shx(m)
         if mi == 4:
@@ -67,6 +77,12 @@ def run(rep, tier, rng):
             # every history ends with an iteration or, every fourth one, with the bulk read (read / read_as), observed too
             ops = h + ([("readall",)] if (len(cases) % 4 == 3) else [("it", -1)])
             typed = not (len(h) % 2 or (mi == 2 and len(cases) % 3)) or (mi == 3 and len(cases) % 3 != 1)
+            if mi == 6:
+                if len(h) > 2 and len(cases) % 5:
+                    continue                              # the long records: all histories up to length 2, a fifth of the others
+                cases.append(C.read_case(18 if typed else -1, shp, shx, ops, sched=[[3], [5, 1], [64], [7]][len(cases) % 4]))
+                meta.append((items, ops, mi))
+                continue
             cases.append(C.read_case(8 if typed else -1, shp, shx, ops))
             if typed and mi in (2, 3):
                 # the typed reader on the record of another type: a mismatch error item, then the iteration goes on
@@ -89,7 +105,7 @@ def run(rep, tier, rng):
             nfail += 1
             if nfail == 1:
                 rep.violation({"kind": "oracle", "what": msg, "case_kind": "read", "case": c, "ops": ops,
-                               "file": ["different sizes", "equal sizes", "null record in the middle", "record of another type in the middle", "index order differs from file order", "header length ends inside the second record"][mi]})
+                               "file": ["different sizes", "equal sizes", "null record in the middle", "record of another type in the middle", "index order differs from file order", "header length ends inside the second record", "MultipointZ, short-reading sources"][mi]})
     # ---- the complete Reader (shape + attribute row pairs): after a seek or a partial iteration the bulk read
     # `Reader::read` starts where the reader stands, for shapes and rows alike
     import C08
